@@ -181,6 +181,21 @@ func decodeReal(v string) (*big.Rat, bool) {
 
 func decodeFloat(v string, mode Mode) (float64, bool) {
 	switch mode {
+	case ModeXReal:
+		switch {
+		case strings.HasPrefix(v, "xpinf"):
+			return math.Inf(1), true
+		case strings.HasPrefix(v, "xninf"):
+			return math.Inf(-1), true
+		case strings.HasPrefix(v, "xnan"):
+			return math.NaN(), true
+		case strings.HasPrefix(v, "(xfin"):
+			a := splitArgs(v)
+			if len(a) == 2 {
+				return decodeFloat(a[1], ModeReal)
+			}
+		}
+		return 0, false
 	case ModeReal:
 		r, ok := decodeReal(v)
 		if !ok {
